@@ -56,6 +56,7 @@ def check(model: Model, report: Report) -> None:
         "G": "valid token shapes (grouping, negation, comparisons, selections, slices) are accepted by the interpreted parser",
         "GRID": "every sequence of filter tokens (<= 4 quick / 5 thorough, balanced parentheses) and of bracketed-selection tokens that the RFC grammar and typing rules accept is accepted by the interpreted parser",
         "L11": "lexer state transitions and bracket / function-call bookkeeping per generic iteration (what scans what follows each lexeme, when a filter ends, how parentheses of calls and groups are matched)",
+        "S": "every query made of name / index segments only (any index, any name) is recognised as singular, so that it may be compared and passed as a ValueType argument",
         "L10": "function arguments may start with every token a filter expression may start with",
     }.items():
         report.rule(f"R03.{k}", v)
@@ -66,6 +67,9 @@ def check(model: Model, report: Report) -> None:
     _lexstates.check_blank_positions(model, report, "R03.L9", "b-only")
     _lexstates.check_transitions(model, report, "R03.L11")
     check_argument_prefixes(model, report, "R03.L10")
+    from .c05 import check_singular
+
+    check_singular(model, report, "R03.S", only=True)
     from . import _shapes
 
     _shapes.check_shapes(model, report, "R03.G", want_valid=True)
